@@ -1,0 +1,23 @@
+//go:build verif
+
+package token
+
+// Hooks for the C16 correspondence driver (/verif/harness/cmd/tokstore).
+// Add-only; compiled only with -tags verif.
+
+// VerifResetStateful drops the in-memory state of the token store, keeping
+// the file name: what a newly started process has in memory.
+func VerifResetStateful() {
+	tokens.mu.Lock()
+	defer tokens.mu.Unlock()
+	tokens.reset()
+}
+
+// VerifFreshLoad reads filename with the store's own load() into a new,
+// independent state (a freshly started server) and returns all its tokens.
+func VerifFreshLoad(filename string) ([]*Stateful, string, error) {
+	s := &state{filename: filename}
+	s.mu.Lock()
+	defer s.mu.Unlock()
+	return s.list("", true)
+}
